@@ -90,7 +90,8 @@ func runCrash(prop string) *ShardResult {
 		cc.WorkLen = func(l int) int { return []int{0, 2, 1, 1}[l] }
 		cc.Alpha = func(l int, m *core.Model) []core.Op {
 			if l == 1 {
-				return appendOps(m, full)
+				// a torn forced seal (tail truncation inside the tail) is a torn batch too
+				return append(appendOps(m, full), delOps(m, false, true)...)
 			}
 			return appendOps(m, [][]int{{4}, {12}, {4, 4}})
 		}
